@@ -1125,6 +1125,50 @@ def np_intersect1d(I, a, k):
     return I.st.alloc('clist', sorted(set(xs) & set(ys)), nd=True)
 
 
+def np_shape(I, a, k):
+    x = a[0]
+    if numkind(x) is not None:
+        return ()
+    if isinstance(x, tuple):
+        x = I.st.alloc('clist', list(x))
+    if Mo.is_list(x):
+        n = nd_nested(I, x)
+        if n is not None:
+            return nd_shape(n)
+        return (Mo.list_len(I, x),)
+    raise Unsupported('numpy.shape of %r' % (x,))
+
+
+class BroadcastV:
+    """numpy.broadcast(...): only its .shape is modelled"""
+    def __init__(self, shape):
+        self.shape = shape
+
+
+def np_broadcast(I, a, k):
+    shapes = [np_shape(I, [x], {}) for x in a]
+    if any(len(s_) > 1 or (s_ and not isinstance(s_[0], int)) for s_ in shapes):
+        raise Unsupported('numpy.broadcast of >1-d / symbolic-length operands')
+    lens = set(s_[0] for s_ in shapes if s_) - {1}
+    if len(lens) > 1:
+        raise PyExc('ValueError', 'shape mismatch: objects cannot be broadcast to a single shape')
+    if not any(shapes):
+        return BroadcastV(())
+    return BroadcastV((lens.pop() if lens else 1,))
+
+
+def np_atleast_1d(I, a, k):
+    out = []
+    for x in a:
+        if numkind(x) is not None:
+            out.append(I.st.alloc('clist', [x], nd=True))
+        elif Mo.is_list(x) or isinstance(x, tuple):
+            out.append(np_asarray(I, [x], {'__asarray__': True}))
+        else:
+            raise Unsupported('atleast_1d of %r' % (x,))
+    return out[0] if len(out) == 1 else tuple(out)
+
+
 def np_ptp(I, a, k):
     x = a[0]
     if set(k) - {'axis'} or len(a) > 2:
@@ -1552,6 +1596,10 @@ def lib_lookup(I, dotted):
         'numpy.ndarray': Builtin('numpy.ndarray', lambda I_, a, k: _unsup('ndarray()')),
         'numpy.sum': Builtin('numpy.sum', np_sum),
         'numpy.ptp': Builtin('numpy.ptp', np_ptp),
+        'numpy.shape': Builtin('numpy.shape', np_shape),
+        'numpy.broadcast': Builtin('numpy.broadcast', np_broadcast),
+        'numpy.atleast_1d': Builtin('numpy.atleast_1d', np_atleast_1d),
+        'numpy.empty': Builtin('numpy.empty', _np_filled(0.0)),
         'numpy.intersect1d': Builtin('numpy.intersect1d', np_intersect1d),
         'numpy.argmin': Builtin('numpy.argmin', lambda I_, a, k: np_argext(I_, a, k, True)),
         'numpy.argmax': Builtin('numpy.argmax', lambda I_, a, k: np_argext(I_, a, k, False)),
